@@ -76,6 +76,14 @@ pub fn check_xor(ctx: &mut Ctx, a: &RefAddr, tid: &[u8; 12], through_message: bo
         }
         let msg_trip = if through_message {
             let mut b = Message::builder(MessageType::from_class_method(MessageClass::Success, 1), t);
+            // other attributes in front of it, among them types that share low bits with 0x0020 (the
+            // draft code point 0x8020, 0x0060, 0x0120 ...): they are other attributes
+            const COMPANIONS: [u16; 16] = [0x8020, 0x0060, 0x00a0, 0x0120, 0x0420, 0x1020, 0x4020, 0xc020, 0x0021, 0x0000, 0x2000, 0x0002, 0x8022, 0x0001, 0x7f20, 0xff20];
+            let sel = std_addr.port() as usize ^ (tid[3] as usize);
+            for k in 0..(sel % 3) {
+                let ct = COMPANIONS[(sel / 3 + k * 5) % COMPANIONS.len()];
+                let _ = b.add_raw_attribute(RawAttribute::new(AttributeType::new(ct), &wire[..(sel + k) % 5]).into_owned());
+            }
             b.add_attribute(&x).ok();
             let bytes = b.build();
             Message::from_bytes(&bytes).ok().and_then(|m| m.attribute::<XorMappedAddress>().ok().map(|d| d.addr(m.transaction_id())))
@@ -386,6 +394,46 @@ pub fn run(ctx: &mut Ctx) {
                 ctx.sample("special-range", || wit(a, &tids[1]));
             }
         }
+    }
+    // ---- addresses whose WIRE image contains bytes that look like STUN structure (an attribute
+    //      header of FINGERPRINT / MESSAGE-INTEGRITY / MESSAGE-INTEGRITY-SHA256 / SOFTWARE / another
+    //      XOR-MAPPED-ADDRESS, a message header start, the magic cookie) at every aligned offset of
+    //      the value, the rest random; through the wire as the last and only attribute ----
+    {
+        let patterns: [[u8; 4]; 8] = [[0x80, 0x28, 0x00, 0x04], [0x00, 0x08, 0x00, 0x14], [0x00, 0x1c, 0x00, 0x20], [0x80, 0x22, 0x00, 0x04], [0x00, 0x20, 0x00, 0x08], [0x00, 0x01, 0x00, 0x00], [0x21, 0x12, 0xa4, 0x42], [0x00, 0x00, 0x00, 0x00]];
+        let mut rng = ctx.rng("wire-lookalike", 0);
+        for (pi, pat) in patterns.iter().enumerate() {
+            for v6 in [false, true] {
+                let offs: &[usize] = if v6 { &[0, 4, 8, 12] } else { &[0] };
+                for &o in offs {
+                    for (ti, t) in tids.iter().enumerate().take(12) {
+                        idx += 1;
+                        if !ctx.mine(idx) {
+                            continue;
+                        }
+                        for _rep in 0..4 {
+                            // the image (what is on the wire), then the address that produces it
+                            let mut img = [0u8; 16];
+                            for b in img.iter_mut() {
+                                *b = rng.byte();
+                            }
+                            img[o..o + 4].copy_from_slice(pat);
+                            let key: Vec<u8> = [0x21u8, 0x12, 0xa4, 0x42].iter().chain(t.iter()).copied().collect();
+                            let n = if v6 { 16 } else { 4 };
+                            let mut ip = [0u8; 16];
+                            for k in 0..n {
+                                ip[k] = img[k] ^ key[k];
+                            }
+                            let a = RefAddr { v6, ip, port: rng.next() as u16 };
+                            check_xor(ctx, &a, t, true);
+                            ctx.count("wire-images-that-look-like-stun");
+                            ctx.distinct(hash64(&[14, pi as u64, o as u64, ti as u64, a.port as u64]));
+                        }
+                    }
+                }
+            }
+        }
+        ctx.require("wire-images-that-look-like-stun", 1_000);
     }
     // ---- strided IPv4 sweep and random IPv6 ----
     let n4 = ctx.n(1 << 22, 1 << 26);
